@@ -430,11 +430,55 @@ class FuncGraph:
         m = getattr(self, 'st_' + type(s).__name__, None)
         if m is None:
             self.unknown_stmts.append(s)
+            # (skipped, not modelled: whatever it binds keeps its old term - a report located in this function is demoted to undecided, see pbv/opaque.py)
+            self.__dict__.setdefault('not_followed', []).append((f'a {type(s).__name__} statement', getattr(s, 'lineno', 0)))
             return None
         return m(s, env)
 
     def st_Pass(self, s, env):
         return None
+
+    def st_Match(self, s, env):
+        """match x: case 'a' | 'b': ... case None: ... case _: ...   is the if / elif / else chain over x == 'a' or x == 'b', x is None, ...
+        (literal, singleton, or-patterns and the wildcard / a capture without guard as last case; anything else is not followed)"""
+        def test_of(pat):
+            if isinstance(pat, ast.MatchValue) and isinstance(pat.value, (ast.Constant, ast.UnaryOp, ast.Attribute)):
+                return ast.Compare(left=s.subject, ops=[ast.Eq()], comparators=[pat.value])
+            if isinstance(pat, ast.MatchSingleton):
+                return ast.Compare(left=s.subject, ops=[ast.Is()], comparators=[ast.Constant(pat.value)])
+            if isinstance(pat, ast.MatchOr):
+                ts = [test_of(p_) for p_ in pat.patterns]
+                return None if any(t_ is None for t_ in ts) else ast.BoolOp(op=ast.Or(), values=ts)
+            return None
+        if not isinstance(s.subject, (ast.Name, ast.Attribute)):
+            self.unknown_stmts.append(s)
+            self.__dict__.setdefault('not_followed', []).append(('match statement on a computed subject', getattr(s, 'lineno', 0)))
+            return None
+        chain, tail = [], None
+        for k, c in enumerate(s.cases):
+            wild = isinstance(c.pattern, ast.MatchAs) and c.pattern.pattern is None and c.guard is None
+            if wild and k == len(s.cases) - 1:
+                tail = list(c.body)
+                if c.pattern.name is not None:
+                    tail = [ast.Assign(targets=[ast.Name(id=c.pattern.name, ctx=ast.Store())], value=s.subject)] + tail
+                break
+            t_ = test_of(c.pattern)
+            if t_ is None:
+                self.unknown_stmts.append(s)
+                self.__dict__.setdefault('not_followed', []).append(('match statement with structural patterns', getattr(s, 'lineno', 0)))
+                return None
+            if c.guard is not None:
+                t_ = ast.BoolOp(op=ast.And(), values=[t_, c.guard])
+            chain.append((t_, list(c.body)))
+        if not chain:
+            chain = [(ast.Constant(True), tail or [ast.Pass()])]
+            tail = None
+        node = None
+        for t_, body in reversed(chain):
+            node = ast.If(test=t_, body=body, orelse=([node] if node is not None else (tail or [])))
+        ast.copy_location(node, s)
+        ast.fix_missing_locations(node)
+        return self.stmt(node, env)
 
     def st_Expr(self, s, env):
         if isinstance(s.value, ast.Constant):
@@ -1284,6 +1328,10 @@ class FuncGraph:
                     t = self.mk('ref', (r,), e)
                     t.extra = ('via-class', o)
                     return t
+        if e.attr == 'mT' and base.op != 'ref':
+            return self._libcall('numpy.swapaxes', (base, const(-1, e, self.fn), const(-2, e, self.fn)), e)          # x.mT is the matrix transpose np.swapaxes(x, -1, -2)
+        if e.attr == 'smallest_normal' and base.op == 'call' and base.args[0].op == 'ref' and isinstance(base.args[0].args[0], Lib) and base.args[0].args[0].dotted == 'numpy.finfo':
+            return self.mk('attr', (base, 'tiny'), e)          # np.finfo(t).smallest_normal is np.finfo(t).tiny
         return self.mk('attr', (base, e.attr), e)
 
     def index(self, sl, env):
@@ -1428,6 +1476,20 @@ class FuncGraph:
                 env[k.value.id] = t
         return t
 
+    MODERN_ALIASES = {'numpy.permute_dims': 'numpy.transpose', 'numpy.concat': 'numpy.concatenate', 'numpy.pow': 'numpy.power', 'numpy.linalg.vector_norm': 'numpy.linalg.norm',
+                      'numpy.cumulative_sum': 'numpy.cumsum', 'numpy.cumulative_prod': 'numpy.cumprod', 'numpy.acos': 'numpy.arccos', 'numpy.asin': 'numpy.arcsin',
+                      'numpy.atan': 'numpy.arctan', 'numpy.atan2': 'numpy.arctan2', 'numpy.bitwise_invert': 'numpy.invert', 'numpy.linalg.matrix_norm': 'numpy.linalg.norm',
+                      'numpy.linalg.outer': 'numpy.outer', 'numpy.linalg.cross': 'numpy.cross', 'numpy.linalg.tensordot': 'numpy.tensordot', 'numpy.linalg.matmul': 'numpy.matmul'}
+
+    def ex_call_terms(self, f, args, kws, e, env):
+        """a call whose callee / arguments are already terms: canonical form if there is one, else the call itself (with its event)"""
+        c = self.canonical_call(f, args, kws, e, env)
+        if c is not None:
+            return c
+        t = self.mk('call', (f, tuple(args), tuple(kws)), e)
+        self.event('call', t, e)
+        return t
+
     FRESH_MAKERS = ('numpy.empty', 'numpy.empty_like', 'numpy.zeros', 'numpy.zeros_like', 'numpy.ones', 'numpy.ones_like', 'numpy.full', 'numpy.full_like')
 
     def _own_buffer(self, t, depth=0):
@@ -1500,6 +1562,18 @@ class FuncGraph:
         reference tree does not have are inlined.  Returns the replacing term or None."""
         lib = f.args[0].dotted if f.op == 'ref' and isinstance(f.args[0], Lib) else None
         plain = not any(a.op == 'star' for a in args) and all(k is not None for k, _ in kws)
+        # NumPy 2 / array-API names of operations that have an older name
+        if lib in self.MODERN_ALIASES and plain:
+            return self.ex_call_terms(self.mk('ref', (Lib(self.MODERN_ALIASES[lib]),), e), list(args), list(kws), e, env)
+        if lib in ('numpy.matrix_transpose', 'numpy.linalg.matrix_transpose') and plain and len(args) == 1 and not kws:
+            return self._libcall('numpy.swapaxes', (args[0], const(-1, e, self.fn), const(-2, e, self.fn)), e)
+        if lib in ('numpy.linalg.diagonal', 'numpy.linalg.trace') and plain and len(args) == 1 and not [k for k, _ in kws if k != 'offset']:
+            return self.ex_call_terms(self.mk('ref', (Lib('numpy.' + lib.rsplit('.', 1)[1]),), e), list(args), list(kws) + [('axis1', const(-2, e, self.fn)), ('axis2', const(-1, e, self.fn))], e, env)
+        if lib == 'numpy.astype' and plain and len(args) == 2 and not [k for k, _ in kws if k != 'copy']:
+            return self.ex_call_terms(self.mk('attr', (args[0], 'astype'), e), [args[1]], list(kws), e, env)
+        if lib in ('numpy.vecdot', 'numpy.linalg.vecdot') and plain and len(args) == 2 and (not kws or (len(kws) == 1 and kws[0][0] == 'axis' and kws[0][1].op == 'const' and kws[0][1].args[0] == -1)):
+            # vecdot(a, b) = sum(conj(a) * b, axis=-1)
+            return self._libcall('numpy.einsum', (const('...d,...d->...', e, self.fn), self._libcall('numpy.conj', (args[0],), e), args[1]), e)
         if lib == 'functools.partial' and plain and args:
             if args[0].op == 'partial':
                 return self.mk('partial', (args[0].args[0], tuple(args[0].args[1]) + tuple(args[1:]), tuple(args[0].args[2]) + tuple(kws)), e)
